@@ -3,6 +3,7 @@ import TemplVerif.Drive.AstParse
 import TemplVerif.Model.Norm
 import TemplVerif.Model.Printer
 import TemplVerif.Model.Reparse
+import TemplVerif.Model.Spaced
 namespace TemplVerif.Drive.C0809
 open TemplVerif TemplVerif.Drive
 
@@ -127,9 +128,16 @@ def handleC08 : List String → Verdict
       let rows := List.zip same eqs
       -- the theorem (C08_same_class_same_program) says: same class => same program
       let broken := rows.findIdx? fun r => r.1 && !r.2
-      { mismatch := broken.map fun i => s!"template #{i}: original and formatted tree are in the same layout class, but the real generator emits different code for them",
+      -- C08_fragment_class_kept: a fragment template that is parser-well-formed and already spaced stays in its class
+      let spacedRows := (List.zip t0 t1).map fun p =>
+        Printer.nodesInFragment p.1 && AstParse.nodesExprs p.1 == AstParse.nodesExprs p.2 && Reparse.wfNodes p.1 && Spaced.body p.1
+      let leftAlthoughSpaced := (List.zip spacedRows same).findIdx? fun r => r.1 && !r.2
+      { mismatch := match broken with
+          | some i => some s!"template #{i}: original and formatted tree are in the same layout class, but the real generator emits different code for them"
+          | none => leftAlthoughSpaced.map fun i => s!"template #{i}: in the printer fragment, parser-well-formed and spaced, yet the real formatter moved it out of its layout class (C08_fragment_class_kept's model disagrees with the implementation)",
         nontrivial := rows.any (·.1),
         tags := [origin, "cls"] ++ (if rows.all (·.1) then ["class-kept"] else ["class-left"]) ++
+                (if spacedRows.any id then ["has-spaced-fragment-template"] else []) ++
                 (if rows.any (fun r => !r.1 && r.2) then ["class-left-but-same-code"] else []),
         sig := "cls" }
     | _, _ => .badOp
